@@ -35,7 +35,8 @@ def parse_requests(data: bytes, max_msgs: int = 50) -> Tuple[List[Dict[str, Any]
             continue
         if isinstance(ev, h11.Request):
             cur = {'method': bytes(ev.method), 'target': bytes(ev.target), 'version': bytes(ev.http_version),
-                   'headers': [(bytes(k), bytes(v)) for k, v in ev.headers], 'body': b'', 'complete': False}
+                   'headers': [(bytes(k), bytes(v)) for k, v in ev.headers], 'body': b'', 'complete': False,
+                   'raw_headers': [(bytes(k), bytes(v)) for k, v in ev.headers.raw_items()]}   # names as spelt on the wire
             out.append(cur)
         elif isinstance(ev, h11.Data):
             assert cur is not None
